@@ -5,3 +5,4 @@ open Fzf.Props.C19
 #print axioms C19_link_not_followed
 #print axioms C19_listed_under
 #print axioms C19_skip_rules
+#print axioms C19_no_dot_slash
